@@ -85,7 +85,8 @@ pub fn gen_c18(seed: u64, tier: Tier) -> Scenario {
         let n = ops_budget(&cfg, per, 3, if tier == Tier::Quick { 16 } else { 40 }, &mut rng);
         let mix = OpMix::swarm(&mut rng, n);
         let (_, ops, _) = gen_history(&mut rng, &cfg, &mix);
-        instances.push(InstanceSpec { config: cfg, signal: gen_signal(&mut rng), ops, home: rng.below(threads as u64) as u8 });
+        let signal = if rng.chance(0.15) { gen_tiny(&mut rng) } else { gen_signal(&mut rng) };
+        instances.push(InstanceSpec { config: cfg, signal, ops, home: rng.below(threads as u64) as u8 });
     }
     let total: usize = instances.iter().map(|i| i.ops.len()).sum();
     let p_mig = if rng.chance(0.2) { 0.0 } else { rng.uniform(0.05, 0.6) };
